@@ -14,6 +14,7 @@ keys, both lookup strategies of `parse_data` compute `Spec.contract` — the per
   `collect_errors` reports all of them (at most `max_errors`);
 * `C05_attr_view` : after `__init__`, `__dict__` holds every value under its attribute name and the
   mapping lacks exactly the `no_output` fields;
+* `C05_getattr_view` : attribute access gives that value, else the deferred default;
 * `C05_init_refines` : the same for `Cls.__from__(data, options)` from the declaration as written.
 
 No bound on the number of fields, aliases, keys or on the values.  The theorems are about the model of the
@@ -221,6 +222,21 @@ theorem C05_attr_view [DecidableEq V] (W : World V) (LL : LowerLaws W) (P : Pars
     split at h
     · cases h
     · split at h <;> cases h
+
+/-- **Attribute access** (`Schema.__field_getter__`): `inst.<attname>` gives the value the contract prescribes —
+also for a `no_output` field — and otherwise the deferred default (`defer_default`), else AttributeError. -/
+theorem C05_getattr_view [DecidableEq V] (W : World V) (LL : LowerLaws W) (P : Parser V) (hwf : P.wf W = true)
+    (o : Opts V) (data : List (Key × V)) (hnd : (data.map (·.1)).Nodup) (m a : List (Key × V))
+    (h : finish {} W P o (parseData {} W P o data) = .ok m a) :
+    ∀ kf ∈ P.fields, getattrView o kf.2 m a =
+      (dget kf.2.name (contract W P o data).result).orElse (fun _ => deferred o kf.2) := by
+  intro kf hf
+  obtain ⟨h1, h2⟩ := (C05_attr_view W LL P hwf o data hnd m a h).1 kf hf
+  unfold getattrView
+  rw [h1, h2, getDefault_true_eq]
+  cases hr : dget kf.2.name (contract W P o data).result with
+  | none => rfl
+  | some v => cases hno : noOutput W o kf.2 v <;> simp [Option.filter, hno]
 
 /-- **C05 for `Cls.__from__(data, options=runtime)` from the declaration as written.** -/
 theorem C05_init_refines [DecidableEq V] (W : World V) (LL : LowerLaws W) (c : ClassDecl V)
